@@ -206,6 +206,16 @@ Definition bh_apply_op (c : bclient) (o : bmop) : bclient :=
 Definition bh_apply_ops (w : bworld) (k : nat) (ops : list bmop) : bworld :=
   bw_upd w k (fun c => fold_left bh_apply_op ops c).
 
+(* The reader goroutine (serve.go:103-124 PUBACK / PUBREC, 145-155 PUBCOMP, 156-177 SUBACK / UNSUBACK)
+   receiving an acknowledgement of kind kd for identifier i on client k while NO call is waiting for
+   it (a late or duplicate acknowledgement: the request gave up on ctx.Done, or was already
+   acknowledged): [sig.PubRec(id)] etc. look the entry up and delete it (client.go:146-200); if there
+   was one the packet is put into that (abandoned, buffered) channel, otherwise it is dropped. In
+   both cases NOTHING is written to the transport — in particular the reader never sends PUBREL for
+   an unexpected PUBREC. On the signaller this is exactly [MUnreg kd i]. *)
+Definition serve_stray_ack (w : bworld) (k : nat) (kd : wkind) (i : N) : bworld :=
+  if bc_inited (bw_get w k) then bw_upd w k (bc_unreg kd i) else w.
+
 (* one attempt of a chain: the client it runs on, what other requests did to that client's
    signaller since the previous attempt, the identifier newID would hand out, the environment *)
 Record bstep := { bs_k : nat; bs_ops : list bmop; bs_fresh : N; bs_env : aenv }.
